@@ -627,7 +627,10 @@ def check_cell_stats(prog, rep, m, f, loops, comps=()):
         for c in calls(lp):
             if short(c) == 'append' and c.args and isinstance(lp.target, ast.Name):
                 shown = norm(c)
-                ok = ok or is_stat_of(c.args[0], lp.target.id)
+                a0 = c.args[0]
+                if isinstance(a0, ast.Name) and a0.id in env and a0.id != lp.target.id:
+                    a0 = env[a0.id]          # the statistic of the cell named before it is appended
+                ok = ok or is_stat_of(a0, lp.target.id)
     for cp in comps:
         if isinstance(cp.generators[0].target, ast.Name):
             shown = norm(cp)
